@@ -94,6 +94,8 @@ class SessionModel(object):
             return ('value', (f['mode'], f['content']['size'] & 0xFFFFFFFF, f['mtime']))
         if k == 'pull':
             rf = d.get('recv_fail', {}).get(path)
+            if d.get('recv_close', {}).get(path) is not None:
+                return ('exc', TIMEOUT_EXCS, None)
             if path in self.pushed and not rf:
                 return ('pull', self.pushed[path]['data'])
             f = d.get('fs', {}).get(path)
@@ -233,7 +235,9 @@ def check_session(run, scn, actor=0, model=None, relaxed_from=None):
                 probs.append(P('wrong-result', '%s wrote %s, device file is %s (first difference at %d)' % (where, brief(got), brief(want), j)))
             cb = rec.get('cb_calls')
             if op.get('cb') and cb is not None and not relaxed:
-                if sum(c[1] for c in cb) != len(want):
+                if any(not isinstance(c[1], int) for c in cb):
+                    probs.append(P('callback-count', '%s: progress callback received a byte count of %r' % (where, [c[1] for c in cb if not isinstance(c[1], int)][0])))
+                elif sum(c[1] for c in cb) != len(want):
                     probs.append(P('callback-count', '%s: progress callback byte counts sum to %d, file has %d' % (where, sum(c[1] for c in cb), len(want))))
         elif exp[0] == 'pushfail':
             probs.append(P('missing-exception', '%s returned normally although the device answered FAIL(%r)' % (where, exp[1][:40])))
@@ -292,7 +296,7 @@ def check_push(run, op, rec, where, actor=None):
     cb = rec.get('cb_calls')
     if op.get('cb') and cb is not None:
         for path, data in want.items():
-            tot = sum(c[1] for c in cb if c[0] == path)
+            tot = sum((c[1] if isinstance(c[1], int) else -1) for c in cb if c[0] == path)
             if tot != len(data):
                 probs.append(P('callback-count', '%s: progress callback byte counts for %r sum to %d, source has %d' % (where, _sp(path), tot, len(data))))
             bad = [c for c in cb if c[0] == path and c[2] != len(data)]
